@@ -345,7 +345,7 @@ def validateSuffixData (cfg : Protocol) : Option SuffixData → Bool
 
 /-- `validateNonce` -/
 def nonceOK (cfg : Protocol) (nonce : String) : Bool :=
-  nonce = "" || match b64DecodeStr nonce with
+  nonce = "" || match b64DecodeStrictStr nonce with
     | some bs => bs.length == cfg.nonceSize
     | none => false
 
